@@ -12,14 +12,19 @@
 EXTENDS Monitor, Json, IOUtils
 
 Steps == ndJsonDeserialize(IOEnv.MON_STEPS)
-K == MkK(IOEnv.MON_CAT, IOEnv.MON_VARIANT, IOEnv.MON_REV = "true", IOEnv.MON_MIR = "true")
+K == MkKS(IOEnv.MON_CAT, IOEnv.MON_VARIANT, IOEnv.MON_REV = "true", IOEnv.MON_MIR = "true", IOEnv.MON_STALE = "true")
 
 IsView(j) == "h" \in DOMAIN j
-VJ(j) == IF IsView(j) THEN [j EXCEPT !.w = SeqToSet(j.w), !.sn = SeqToSet(j.sn)] ELSE j
+VJ(j) == IF IsView(j) THEN [h |-> j.h, fh |-> j.fh, fo |-> j.fo, dsh |-> j.dsh, mch |-> j.mch, uch |-> j.uch,
+                            ct |-> j.ct, cour |-> j.cour, cos |-> j.cos, cho |-> j.cho, chs |-> j.chs, csl |-> j.csl,
+                            csh |-> j.csh, oosh |-> j.oosh, w |-> SeqToSet(j.w), sn |-> SeqToSet(j.sn),
+                            sb |-> j.sb, pd |-> <<>>]
+         ELSE j
 RespOf(rc) == CASE rc = 1 -> "ok" [] rc = 2 -> "panic" [] OTHER -> "refused"
 ReqOf(e) == [op |-> e.req.op, b |-> e.req.b, m |-> e.req.m]
 
-StepOk(e) == e.rc # 2 /\ (e.rc = 1 => e.post = e.fresh)
+\* e.late: the sequence starts with the request L = "the channel is set up in the middle of streamed block b"
+StepOk(e) == e.rc # 2 /\ (e.rc = 1 => IsView(e.fresh) /\ Cmp(e.late, VJ(e.post)) = Cmp(e.late, VJ(e.fresh)))
 
 VARIABLES l
 Init == l = 1
@@ -32,9 +37,11 @@ Idx == DOMAIN Steps
 Conforms(e) ==
   LET st == [chain |-> e.c, s |-> VJ(e.pre)]
       o  == Step(K, st, ReqOf(e)) IN
+  IF e.req.op = "L" THEN e.rc = 1 /\ [InitStLate(K, e.req.b).s EXCEPT !.pd = <<>>] = VJ(e.post)
+  ELSE
   /\ ValidChain(K, e.c) /\ Enabled(K, st, ReqOf(e))
   /\ o.resp = RespOf(e.rc)
-  /\ e.rc = 1 => o.st.s = VJ(e.post)
+  /\ e.rc = 1 => [o.st.s EXCEPT !.pd = <<>>] = VJ(e.post)
 Divergent == {i \in Idx : ~Conforms(Steps[i])}
 PreGood(i) == Steps[i].step = 0 \/ (i > 1 /\ Steps[i - 1].seq = Steps[i].seq /\ StepOk(Steps[i - 1]))
 FirstBad  == {i \in Idx : PreGood(i) /\ ~StepOk(Steps[i])}
@@ -43,8 +50,11 @@ Broken    == {i \in Idx : i > 1 /\ Steps[i].step > 0 /\ Steps[i].pre # Steps[i -
 Describe(i) == LET e == Steps[i] IN
   [line |-> i, seq |-> e.seq, step |-> e.step, rc |-> e.rc,
    diff |-> IF e.rc # 1 THEN <<>>
-            ELSE IF IsView(e.fresh) THEN DiffFields(VJ(e.post), VJ(e.fresh)) ELSE <<"fresh-replay-aborted">>]
-DescribeDiv(i) == LET e == Steps[i] o == Step(K, [chain |-> e.c, s |-> VJ(e.pre)], ReqOf(e)) IN
+            ELSE IF IsView(e.fresh) THEN DiffFields(Cmp(e.late, VJ(e.post)), Cmp(e.late, VJ(e.fresh)))
+            ELSE <<"fresh-replay-aborted">>]
+DescribeDiv(i) == LET e == Steps[i]
+                      o == IF e.req.op = "L" THEN [resp |-> "ok", why |-> "", st |-> InitStLate(K, e.req.b)]
+                           ELSE Step(K, [chain |-> e.c, s |-> VJ(e.pre)], ReqOf(e)) IN
   [line |-> i, seq |-> e.seq, step |-> e.step, rc |-> e.rc, expected_resp |-> o.resp, why |-> o.why,
    diff |-> IF e.rc = 1 /\ o.resp = "ok" THEN DiffFields(o.st.s, VJ(e.post)) ELSE <<>>]
 
